@@ -39,9 +39,9 @@ STRENGTHENED = {
  "C19-m2": "ported by hand onto the repaired keyword code (fix F13): KEYWORD regex run over the lower-cased text but compared with the original text",
 }
 ALSO = {"C04-m3": ["C05"], "C04-m4": ["C12"], "C16-m3": ["C12"], "C04-m5": ["C05"], "C04-m6": ["C05"], "C20-m6": ["C12"],
-        "C12-m5": ["C16"], "C16-m6": ["C12"], "C01-m1": ["C02"], "C01-m2": ["C02", "C04", "C05"], "C02-m2": ["C01"], "C04-m1": ["C05"], "C04-m2": ["C05"], "C13-m2": ["C09"],
+        "C12-m5": ["C16"], "C16-m6": ["C12"], "C01-m1": ["C02"], "C02-m1": ["C01"], "C01-m2": ["C02", "C04", "C05"], "C02-m2": ["C01"], "C04-m1": ["C05"], "C04-m2": ["C05"], "C13-m2": ["C09"],
         "C16-m2": ["C12"]}
-NOT = {"C16-m2": ["C16"], "C02-m1": ["C01"], "C04-m4": ["C04", "C05"], "C17-m3": ["C02", "C03"], "C17-m4": ["C08"],
+NOT = {"C16-m2": ["C16"], "C04-m4": ["C04", "C05"], "C17-m3": ["C02", "C03"], "C17-m4": ["C08"],
        "C20-m4": ["C19"], "C20-m6": ["C20"], "C16-m5": ["C17"]}
 for d in sorted(glob.glob('/verif/seeded/C*-m*')):
     mid = os.path.basename(d)
